@@ -373,7 +373,7 @@ Qed.
 Lemma request_rewritten : forall c k q, find_q k (c_reqs c) = Some q -> q_phase q = QWait ->
   c_status c = Connected -> writable c = true ->
   snd (step c (EWake k)) = [OReq (c_gen c) k (q_kind q)].
-Proof. intros c k q F P S W. cbn. unfold wake_step. rewrite F, P, S. cbn. rewrite W. reflexivity. Qed.
+Proof. intros c k q F P S W. cbn. unfold wake_step, is_closed. rewrite F, P, S. cbn. rewrite W. reflexivity. Qed.
 
 (* a request whose exchange was cut goes back to waiting: neither returned nor dropped *)
 Lemma find_updq_same : forall l k f q, (forall q, q_id (f q) = q_id q) ->
@@ -404,18 +404,27 @@ Qed.
 Definition conn_level (a : api) : bool :=
   match a with AOpenUp | AOpenDown | AMeta | ACall | AReplyCall | ACallWait | ARecvCall | ARecvReply => true | _ => false end.
 
-Lemma matrix_repaired : forall c a, c_status c = Closed -> fix_f5 (c_cfg c) = true -> conn_level a = true ->
-  conn_api c a = RConnClosed.
+Lemma matrix_repaired : forall c a, c_status c = Closed -> fix_f5 (c_cfg c) = true -> ctx_first (c_cfg c) = false ->
+  conn_level a = true -> conn_api c a = RConnClosed.
 Proof.
-  intros c a H F L. destruct a; try discriminate; unfold conn_api, send_entry, wait_until, closed_hooker, is_closed;
-    rewrite ?H, ?F; reflexivity.
+  intros c a H F X L. destruct a; try discriminate; unfold conn_api, send_entry, wait_until, closed_hooker, is_closed;
+    rewrite ?H, ?F, ?X; reflexivity.
+Qed.
+
+(* the order inside waitUntil's loop matters: were the context consulted before the closed-status hook, the
+   entries that wait on a WithCloseStatus context (cancelled by a watcher as soon as the status is Closed)
+   would return context.Canceled - not a library sentinel - whenever the watcher has already run *)
+Lemma ctx_first_misclassifies : forall c, c_status c = Closed -> ctx_first (c_cfg c) = true ->
+  conn_api c ACallWait = RCanceled.
+Proof.
+  intros c H X. unfold conn_api, send_entry, wait_until, closed_hooker, is_closed. rewrite H, X. reflexivity.
 Qed.
 
 Lemma matrix_faithful : forall c a, c_status c = Closed -> fix_f5 (c_cfg c) = false -> conn_level a = true ->
   conn_api c a = match a with AMeta => RDeadline | ACallWait => RCanceled | _ => RConnClosed end.
 Proof.
   intros c a H F L. destruct a; try discriminate; unfold conn_api, send_entry, wait_until, closed_hooker, is_closed;
-    rewrite ?H, ?F; reflexivity.
+    rewrite ?H, ?F; destruct (ctx_first (c_cfg c)); reflexivity.
 Qed.
 
 Lemma stream_cancelled_by_close : forall c i s, c_status c = Closed -> find_s i (c_streams c) = Some s -> s_phase s = SWatch ->
@@ -804,8 +813,8 @@ Proof. intro evs. apply no_panic_run. reflexivity. Qed.
 Lemma after_close_now : forall pre post a, conn_level a = true ->
   conn_api (fst (run (init faithful) (pre ++ ECloseCall :: post))) a = RConnClosed.
 Proof.
-  intros pre post a L. apply matrix_repaired; [apply closed_after_close_call| |exact L].
-  rewrite cfg_run. reflexivity.
+  intros pre post a L. apply matrix_repaired; [apply closed_after_close_call| | |exact L];
+    rewrite cfg_run; reflexivity.
 Qed.
 
 (* a supervisor waiting for the connection returns once the connection is closed (no leak) *)
